@@ -517,6 +517,13 @@ def beast_specs(rng, nframes, force_1a=True):
         if c < 0.2:
             specs.append({"t": 0x34, "ts": rng.randbytes(6).hex(), "sig": rng.randrange(1, 256), "msg": rng.randbytes(rng.choice((2, 7))).hex(), "emit": False})
             continue
+        if c < 0.23:
+            # frame types beyond the four of the classic Beast: Radarcape position reports ("5"), readsb's receiver-id and
+            # timestamp frames (0xE3, 0xE4), anything a newer firmware adds - not Mode S, skipped, and no business of the
+            # Mode S frame in front of them
+            tb = rng.choice((0x35, 0x35, 0xE3, 0xE4, 0x30, 0x36, 0x41, 0x00, 0xFF, rng.choice([v for v in range(256) if v not in (0x1A, 0x31, 0x32, 0x33)])))
+            specs.append({"t": tb, "ts": rng.randbytes(6).hex(), "sig": rng.randrange(256), "msg": rng.randbytes(rng.choice((2, 7, 14, 21))).hex(), "emit": False})
+            continue
         if c < 0.27:
             # length/format mismatch: a long-format DF inside a short Beast frame or a short-format DF inside a long one
             # is not a complete Mode S message and must be skipped by the documented admission rule (never emitted)
